@@ -1167,6 +1167,45 @@ pub fn run_case(case: &Case, stats: &mut Stats) -> RunReport {
                 "completion output although no completion was requested".to_string()
             );
         }
+        // ---- P9: a completion request never runs the program: with a supported
+        // `--bpaf-complete-rev=N` among the switches the shell is asking what could come next,
+        // and whatever the answer is, it is not "here is your parsed value, go ahead"
+        {
+            let asked = switches.iter().any(|t| {
+                t.strip_prefix(b"--bpaf-complete-rev=")
+                    .and_then(|n| std::str::from_utf8(n).ok())
+                    .and_then(|n| n.parse::<usize>().ok())
+                    .map_or(false, |n| matches!(n, 0 | 1 | 7 | 8 | 9))
+            });
+            if asked {
+                stats.bump("rule.P9.evaluated");
+                stats.bump(&format!("probe.class_under_completion_request.{}", e.class));
+                if e.class == "stderr" {
+                    let text = String::from_utf8_lossy(&e.stderr).to_string();
+                    let kind = if text.contains("as both an option and an option-argument") {
+                        "ambiguity"
+                    } else {
+                        "other"
+                    };
+                    stats.bump(&format!("probe.stderr_under_completion_request.{}", kind));
+                }
+                if rest.iter().any(|t| std::str::from_utf8(t).is_err()) {
+                    stats.bump("probe.completion_request_with_non_utf8_word");
+                }
+                if e.class == "value" {
+                    violation!(
+                        "P9",
+                        ix,
+                        "rule=P9 completion-request-runs-the-program".to_string(),
+                        format!(
+                            "the command line {:?} is a completion request, yet run_inner returns a value and run() would start the program body with {:?}",
+                            rest.iter().map(|t| String::from_utf8_lossy(t).to_string()).collect::<Vec<_>>(),
+                            e.body
+                        )
+                    );
+                }
+            }
+        }
         // ---- P8: a bundle of short flags is a spelling of the separate flags
         {
             let letters = bundle_letters(opts);
